@@ -151,6 +151,9 @@ func Project(v reflect.Value) AVal {
 		}
 		if t.Implements(tReader) || v.Elem().Type().Implements(tReader) {
 			if rd, ok := v.Interface().(io.Reader); ok {
+				if or, ok := rd.(*opaqueReader); ok {
+					rd = or.r
+				}
 				if br, ok := rd.(*bytes.Reader); ok {
 					// do not consume
 					bs := make([]byte, br.Len())
@@ -466,3 +469,10 @@ func isOneOfShape(t reflect.Type) bool {
 	}
 	return false
 }
+
+// opaqueReader is a body reader whose length http.NewRequest cannot know (anything but *bytes.Reader, *bytes.Buffer,
+// *strings.Reader): the request then says "length unknown" (ContentLength 0 with a body on the client side, -1 on the
+// server side).  The projection still looks inside.
+type opaqueReader struct{ r *bytes.Reader }
+
+func (o *opaqueReader) Read(p []byte) (int, error) { return o.r.Read(p) }
